@@ -529,7 +529,9 @@ class CoreRef:
             tools = inputTools.copy()
             for (name, tool) in self.__diffTools.items():
                 if tool is None:
-                    del tools[name]
+                    # The diff might have been computed for another set of
+                    # (untouched) input tools when the package was reused.
+                    tools.pop(name, None)
                 elif isinstance(tool, str):
                     tools[name] = inputTools[tool]
                 else:
